@@ -50,6 +50,13 @@ func c15Names(maxLen int) []string {
 	rec(nil)
 	extra := []string{"..\\a", "a\\..\\..\\b", "..\\..\\x", "a\x00/../../z", "../a\x00b", "....//a", "a/.../b", "~/.x", "C:\\x", "C:/x", "\\\\srv\\share\\x", "-", " ", "../ ", ".. /a", "a/../../../../../../../../tmp/verif-c15-escape"}
 	out = append(out, extra...)
+	// the same traversal spellings carrying non-ASCII bytes (valid UTF-8, Latin-1 and invalid sequences): names are
+	// raw bytes in the archive, and a decoder may treat non-ASCII names on a different path than ASCII ones
+	for _, n := range []string{"..", "../a", "a/../../b", "/a", "/../a", "./../a", "a/./../../b", "..//a", "a", "a/b"} {
+		for _, hi := range []string{"\u00e9", "\xe9", "\xff\xfe", "\u4e16"} {
+			out = append(out, n+hi, hi+"/"+n, strings.Replace(n, "a", "a"+hi, 1), n+"/"+hi)
+		}
+	}
 	// dedupe
 	seen := map[string]bool{}
 	var u []string
@@ -331,7 +338,7 @@ func init() {
 	core.Register(&core.Prop{
 		ID:    "C15",
 		Level: "model_checking",
-		Rule: "bounded-exhaustive declared names: every path built from components {a, .., ., empty, a.., ..a} of length 1-4 (thorough 1-5), each with/without a leading and a trailing slash, plus backslash, NUL, drive-letter, UNC and long-traversal spellings and absolute paths into a canary tree; in each position of a 2-file set; PAR1 and PAR2 archives written by the reference writers as fully repairable sets whose declared files are missing; real Verify and Repair. All names run on the recording in-memory filesystem; names shorter than 9 characters (thorough: 12) additionally on a real directory with a canary tree (byte snapshot of everything around the archive directory before/after). PAR2 Create with inputs outside the index directory in 10 spellings. " +
+		Rule: "bounded-exhaustive declared names: every path built from components {a, .., ., empty, a.., ..a} of length 1-4 (thorough 1-5), each with/without a leading and a trailing slash, plus backslash, NUL, drive-letter, UNC, long-traversal and non-ASCII (UTF-8, Latin-1, invalid UTF-8) spellings and absolute paths into a canary tree; in each position of a 2-file set; PAR1 and PAR2 archives written by the reference writers as fully repairable sets whose declared files are missing; real Verify and Repair. All names run on the recording in-memory filesystem; names shorter than 9 characters (thorough: 12) additionally on a real directory with a canary tree (byte snapshot of everything around the archive directory before/after). PAR2 Create with inputs outside the index directory in 10 spellings. " +
 			"Oracle: every write path, cleaned, lies inside the index directory tree (PAR1: directly in it); nothing outside changes or appears; Create refuses. non-trivial = every case (each declares a hostile or boundary name)",
 		Assumptions: []string{"reads outside the directory are counted in evidence but are not an alarm (the statement constrains create/modify/delete)", "Linux path semantics: backslash is an ordinary character"},
 		NewCase:     func() interface{} { return &c15Case{} },
